@@ -16,12 +16,14 @@ pub trait Lane: Copy + PartialEq + Debug + 'static {
     fn from_i(v: i64) -> Self;
     fn enc(self) -> i64;
     fn gen(rng: &mut StdRng) -> Self;
+    fn encv(self) -> Value { json!(self.enc()) }
 }
 impl Lane for Q {
     const NAME: &'static str = "q";
     const FIELD: bool = true;
     fn from_i(v: i64) -> Q { Q::int(v) }
     fn enc(self) -> i64 { match self.residue() { Some(r) => r, None => q::inconclusive("denominator vanishes mod P") } }
+    fn encv(self) -> Value { if pair_mode() { pairq(self) } else { json!(self.enc()) } }
     fn gen(rng: &mut StdRng) -> Q {
         let n = rng.gen_range(-9..=9);
         let d = [1, 1, 1, 1, 2, 3, 4, 5][rng.gen_range(0..8)];
@@ -49,8 +51,19 @@ macro_rules! float_lane { ($($t:ty, $name:expr);+) => {$(
 )+} }
 float_lane!(f64, "f64"; f32, "f32");
 
-pub fn ev<T: Lane>(v: T) -> Value { json!(v.enc()) }
-pub fn evs<T: Lane>(v: &[T]) -> Value { Value::Array(v.iter().map(|x| json!(x.enc())).collect()) }
+thread_local! { static PAIRS: std::cell::Cell<bool> = std::cell::Cell::new(false); }
+/// Switches the encoding of exact rationals from residues mod P (validated with P = 46337) to
+/// exact pairs [n, d] (validated over the ordered field of rationals, P = -1).
+pub fn set_pair_mode(on: bool) { PAIRS.with(|p| p.set(on)); }
+pub fn pair_mode() -> bool { PAIRS.with(|p| p.get()) }
+/// exact pair [n, d] of a plain rational; both must fit TLC's 32-bit integers comfortably
+pub fn pairq(q: Q) -> Value {
+    if !q.is_plain() { q::inconclusive("pair of a non-plain value") }
+    if q.n.abs() > 30000 || q.d > 30000 { q::inconclusive("rational too large for the TLC side") }
+    json!([q.n as i64, q.d as i64])
+}
+pub fn ev<T: Lane>(v: T) -> Value { v.encv() }
+pub fn evs<T: Lane>(v: &[T]) -> Value { Value::Array(v.iter().map(|x| x.encv()).collect()) }
 pub fn evm<T: Lane>(m: &[Vec<T>]) -> Value { Value::Array(m.iter().map(|r| evs(r)).collect()) }
 
 pub struct Drv {
@@ -135,4 +148,35 @@ pub fn trs4(r: &[Vec<Q>], s: &[Q], t: &[Q]) -> Vec<Vec<Q>> {
     for i in 0..3 { for j in 0..3 { m[i][j] = r[i][j] * s[j]; } m[i][3] = t[i]; }
     m[3][3] = Q::int(1);
     m
+}
+
+/// Integer vectors with integer length (Pythagorean triples/quadruples), randomly permuted, signed
+/// and scaled by a non-zero rational; returns (vector, its length).
+pub fn pyth3(rng: &mut StdRng) -> (Vec<Q>, Q) {
+    const T: [(i64, i64, i64, i64); 12] = [(1, 0, 0, 1), (0, 3, 4, 5), (1, 2, 2, 3), (2, 3, 6, 7), (1, 4, 8, 9), (4, 4, 7, 9),
+        (2, 6, 9, 11), (6, 6, 7, 11), (3, 4, 12, 13), (2, 10, 11, 15), (0, 5, 12, 13), (0, 0, 2, 2)];
+    let (a, b, c, l) = T[rng.gen_range(0..T.len())];
+    let mut v = [a, b, c];
+    for i in (1..3).rev() { let j = rng.gen_range(0..=i); v.swap(i, j); }
+    for x in v.iter_mut() { if rng.gen_range(0..2) == 0 { *x = -*x; } }
+    let k = Q::frac([1, 1, 2, 3, 5][rng.gen_range(0..5)], [1, 1, 2, 3, 4][rng.gen_range(0..5)]);
+    (v.iter().map(|x| Q::int(*x) * k).collect(), Q::int(l) * k)
+}
+/// A rational unit quaternion (x, y, z, w) = p*p / N(p) for a random non-zero integer quaternion p.
+pub fn unitquat(rng: &mut StdRng, range: i64) -> Vec<Q> {
+    loop {
+        let (w, x, y, z): (i64, i64, i64, i64) = (rng.gen_range(-range..=range), rng.gen_range(-range..=range), rng.gen_range(-range..=range), rng.gen_range(-range..=range));
+        let n = w * w + x * x + y * y + z * z;
+        if n == 0 { continue; }
+        // p*p = (w^2 - |v|^2, 2 w v)
+        return vec![Q::frac(2 * w * x, n), Q::frac(2 * w * y, n), Q::frac(2 * w * z, n), Q::frac(w * w - x * x - y * y - z * z, n)];
+    }
+}
+/// rotation matrix of a unit quaternion (x,y,z,w), computed by the harness for operand generation only
+pub fn rot_of_quat(q: &[Q]) -> Vec<Vec<Q>> {
+    let (x, y, z, w) = (q[0], q[1], q[2], q[3]);
+    let two = Q::int(2); let one = Q::int(1);
+    vec![vec![one - two * (y * y + z * z), two * (x * y - z * w), two * (x * z + y * w)],
+         vec![two * (x * y + z * w), one - two * (x * x + z * z), two * (y * z - x * w)],
+         vec![two * (x * z - y * w), two * (y * z + x * w), one - two * (x * x + y * y)]]
 }
